@@ -198,12 +198,14 @@ pub fn gen(tier: &str, r: &mut Rng) -> Vec<String> {
         }
         for mi in 0..nmodels {
             if nmodels > 1 { body.push(pdbtext::model_line(mi + 1)); }
+            // the models of one document list the same atoms under the same serial numbers
+            serial = 0;
             for (ch, start, seq, hets, _) in &plan {
                 for (i, nm) in seq.iter().enumerate() {
                     // an incomplete chain: a residue left out, another name, or a number out of step
                     let (mut name, mut num) = (nm.to_string(), start + i as i64);
                     if !complete { match r.below(12) { 0 => continue, 1 => name = r.pick(&names).to_string(), 2 => num += r.range(1, 3), _ => {} } }
-                    for an in ["N", "CA"].iter().take(1 + r.below(2)) {
+                    for an in ["N", "CA"].iter().take(1 + i % 2) {
                         serial += 1;
                         let a = AtomRec { het: false, serial, name: an.to_string(), alt: ' ', resname: name.clone(), chain: *ch, resseq: num, icode: ' ', x: serial as i64 * 1000, y: 0, z: 0, occ: 1_000_000, b: 0, seg: String::new(), element: an[..1].to_string(), charge: 0, aniso: None };
                         body.push(pdbtext::atom_line(&a, r, false));
